@@ -23,17 +23,68 @@ def tag_of(key):
     return cid.split("#", 1)[1] if "#" in cid else ""
 
 
-def compare(ctx, s, stage, signature_of, describe, nontrivial):
+def obs_equal(kind, a, b):
+    """model observations may carry fewer key=value tokens than the implementation's (same keys are compared)"""
+    if a == b:
+        return True
+    if kind in ("emit", "hist", "run") and a is not None and b is not None and "=" in b:
+        bt = b.split(" ")
+        keys = [t.split("=", 1)[0] for t in bt]
+        at = [t for t in a.split(" ") if t.split("=", 1)[0] in keys]
+        return at == bt
+    return False
+
+
+def prog_source(case_body):
+    """main source text of a program case (parse/emit kinds)"""
+    try:
+        f = case_body.split(" ")
+        main = bytes.fromhex(f[0]).decode()
+        for e in f[1].split(","):
+            p = e.split(".")
+            if bytes.fromhex(p[0]).decode() == main:
+                return bytes.fromhex(p[1]).decode("utf-8", "backslashreplace")
+        return "(main file missing) " + ", ".join(bytes.fromhex(e.split(".")[0]).decode() for e in f[1].split(",") if e)
+    except Exception as ex:
+        return "(undecodable case: %s)" % ex
+
+
+def prog_files(case_body):
+    out = {}
+    try:
+        for e in case_body.split(" ")[1].split(","):
+            if e:
+                p = e.split(".")
+                out[bytes.fromhex(p[0]).decode()] = bytes.fromhex(p[1]).decode("utf-8", "backslashreplace")
+    except Exception:
+        pass
+    return out
+
+
+def compare(ctx, s, stage, signature_of, describe, nontrivial, oracle=None):
     """Generic correspondence + oracle comparison for one stream run.
+    oracle(key, s) -> None (holds) | text (what fails); default: implementation == expectation.
     signature_of(key, s) -> signature dict for a property failure on that case."""
     cases, impl, model, expect = s["cases"], s["impl"], s["model"], s["expect"]
-    corr = [k for k in cases if impl.get(k) != model.get(k)]
-    fails = [k for k in expect if impl.get(k) != expect[k]]
+    # "run" cases: the driver prints the reference semantics' verdict there (a specification, not a model of the code)
+    corr = [k for k in cases if k[0] != "run" and not obs_equal(k[0], impl.get(k), model.get(k))]
+    if oracle is None:
+        fails = [(k, "expected %s" % expect[k]) for k in expect if impl.get(k) != expect[k]]
+        checked = len(expect)
+    else:
+        fails = []
+        checked = 0
+        for k in cases:
+            r = oracle(k, s)
+            if r is not False:
+                checked += 1
+            if r:
+                fails.append((k, r))
     ctx.cov["evaluations"] = ctx.cov.get("evaluations", 0) + len(cases)
     ctx.cov["traces_validated_against_impl"] = ctx.cov.get("traces_validated_against_impl", 0) + len(cases)
     ctx.cov.setdefault("stages_compared", []).append(stage)
     ctx.cov["correspondence_mismatches"] = ctx.cov.get("correspondence_mismatches", 0) + len(corr)
-    ctx.cov["oracle_checked"] = ctx.cov.get("oracle_checked", 0) + len(expect)
+    ctx.cov["oracle_checked"] = ctx.cov.get("oracle_checked", 0) + checked
     seen = set()
     for k in cases:
         if nontrivial(k, s):
@@ -41,27 +92,30 @@ def compare(ctx, s, stage, signature_of, describe, nontrivial):
     ctx.cov["distinct_nontrivial"] = ctx.cov.get("distinct_nontrivial", 0) + len(seen)
     new_violation = False
     reported = 0
-    for k in fails:
+    failkeys = set()
+    for k, what in fails:
+        failkeys.add(k)
         sig = signature_of(k, s)
-        body = "stage: %s\ncase: %s %s\ninput: %s\nexpected: %s\nimplementation: %s\nmodel: %s\nreplay: %s\n" % (
-            stage, k[0], k[1], describe(k, s), expect[k], impl.get(k), model.get(k),
-            "printf '%%s\\n' '%s %s %s' > /tmp/case.txt && /verif/.build/harness run /tmp/case.txt /dev/stdout" % (k[0], k[1], cases[k]))
+        body = "stage: %s\ncase: %s %s\ninput: %s\nwhat fails: %s\nimplementation: %s\nmodel: %s\nreplay: %s\n" % (
+            stage, k[0], k[1], describe(k, s), what, (impl.get(k) or "")[:3000], (model.get(k) or "")[:3000],
+            "printf '%%s\\n' '%s %s %s' > /tmp/case.txt && /verif/.build/harness run /tmp/case.txt /dev/stdout" % (k[0], k[1], cases[k][:20000]))
         if reported < 5 or sig:
             if ctx.failing(sig, "property oracle failed at stage " + stage, body):
                 new_violation = True
                 reported += 1
-    if corr and not new_violation:
-        # the model no longer describes the code; no failing input for the property was found
-        only_model_wrong = [k for k in corr if k in expect and impl.get(k) == expect[k]]
-        k = corr[0]
-        known_only = all((k2 in fails) for k2 in corr)   # every mismatch is an already classified (known) failing input
-        if not known_only:
-            ctx.violation("correspondence broken at stage %s: %d of %d cases differ (model vs implementation); "
-                          "%d of them still meet the specification-side expectation\nfirst differing case: %s %s\ninput: %s\nimplementation: %s\nmodel: %s\n"
-                          "theorems that no longer speak about this code: coq/Properties/%s.v\n" % (
-                              stage, len(corr), len(cases), len(only_model_wrong), k[0], k[1], describe(k, s), impl.get(k), model.get(k), ctx.pid),
-                          found_input=False)
+    unexplained = [k for k in corr if k not in failkeys]
+    if unexplained and not new_violation:
+        k = unexplained[0]
+        ctx.violation("correspondence broken at stage %s: %d of %d cases differ (model vs implementation) without a failing input for the property\n"
+                      "first differing case: %s %s\ninput: %s\nimplementation: %s\nmodel: %s\n"
+                      "the model no longer describes this code, so the theorems of coq/Properties/%s.v no longer speak about it\n" % (
+                          stage, len(unexplained), len(cases), k[0], k[1], describe(k, s), (impl.get(k) or "")[:3000], (model.get(k) or "")[:3000], ctx.pid),
+                      found_input=False)
     return corr, fails
+
+
+def describe_prog(k, s):
+    return repr(prog_source(s["cases"][k])[:1500])
 
 
 # ---------------------------------------------------------------- C11
@@ -111,7 +165,159 @@ def run_c19(ctx, ck):
         ctx.samples.append({"case": describe(k, s), "observed": s["impl"].get(k, "")[:200]})
 
 
+# ---------------------------------------------------------------- C13
+BAD_VERDICTS = ("panic", "timeout", "err-empty", "err-with-script", "fuel")
+
+
+def totality_oracle(k, s):
+    o = s["impl"].get(k)
+    if o is None:
+        return "no observation"
+    if k[0] == "parse":
+        v = o.split(" ", 1)[0]
+        return None if v in ("ok", "err") else "parser verdict %s" % v
+    if k[0] == "emit":
+        for t in o.split(" "):
+            key, v = t.split("=", 1)
+            if not (v == "err" or v.startswith("ok:")):
+                return "%s target: %s" % (key, v)
+        return None
+    return False
+
+
+def run_c13(ctx, ck):
+    n = 1500 if ctx.tier == "quick" else 40000
+    for name, cnt in (("fuzz", n), ("suite", 0)):
+        s = ck.run_stream(ctx, name, cnt)
+        compare(ctx, s, "%s stream: parser verdict + AST, Bash and Batch script bytes" % name, lambda k, s: {}, describe_prog,
+                lambda k, s: True, oracle=totality_oracle)
+        ctx.cov.setdefault("distribution", {}).update(s["meta"])
+        verdicts = {}
+        for k, o in s["impl"].items():
+            if k[0] == "parse":
+                v = o.split(" ", 1)[0]
+                verdicts[v] = verdicts.get(v, 0) + 1
+        ctx.cov.setdefault("verdicts", {})[name] = verdicts
+        for k in list(s["cases"])[:2]:
+            ctx.samples.append({"source": prog_source(s["cases"][k])[:400], "observed": s["impl"].get(k, "")[:120]})
+
+
+# ---------------------------------------------------------------- C12
+def run_c12(ctx, ck):
+    n = 60 if ctx.tier == "quick" else 1500
+    s = ck.run_stream(ctx, "layout", n)
+    groups = {}
+    for k in s["cases"]:
+        gid = k[1].split("#")[1].split(".")[0]
+        groups.setdefault(gid, []).append(k)
+
+    def oracle(k, s):
+        gid = k[1].split("#")[1].split(".")[0]
+        ref = groups[gid][0]
+        if k == ref:
+            return None
+        a, b = s["impl"].get(ref), s["impl"].get(k)
+        if a != b:
+            return "layout variant differs from variant 0 of its group: %s... vs %s..." % ((a or "")[:80], (b or "")[:80])
+        return None
+
+    def sig(k, s):
+        t = k[1].split("#")
+        return {"class": t[2]} if len(t) > 2 else {}
+
+    compare(ctx, s, "layout groups: verdict and script bytes of every re-layout equal those of the original", sig, describe_prog,
+            lambda k, s: (s["impl"].get(k) or "").startswith("bash=ok"), oracle=oracle)
+    ctx.cov["groups"] = len(groups)
+    ctx.cov["distribution"] = s["meta"]
+    ks = list(s["cases"])
+    for k in ks[1:3]:
+        ctx.samples.append({"layout_variant": prog_source(s["cases"][k])[:400]})
+
+
+# ---------------------------------------------------------------- C09 (first part)
+def run_c09(ctx, ck):
+    n = 150 if ctx.tier == "quick" else 6000
+    s = ck.run_stream(ctx, "imports", n)
+    compare(ctx, s, "import graphs: parser verdict + AST, script bytes, Bash run", lambda k, s: sig_from_expect(k, s), describe_files,
+            lambda k, s: (s["impl"].get(k) or "").startswith("ok") or "ok:" in (s["impl"].get(k) or ""))
+    ctx.cov["distribution"] = s["meta"]
+    for k in list(s["cases"])[:2]:
+        ctx.samples.append({"files": prog_files(s["cases"][k]), "observed": s["impl"].get(k, "")[:200]})
+
+
+def describe_files(k, s):
+    return json.dumps(prog_files(s["cases"][k]))[:3000]
+
+
+def sig_from_expect(k, s):
+    t = k[1].split("#")
+    return {"class": t[1]} if len(t) > 1 else {}
+
+
+# ---------------------------------------------------------------- C14
+def run_c14(ctx, ck):
+    n = 40 if ctx.tier == "quick" else 1500
+    s = ck.run_stream(ctx, "history", n)
+
+    def oracle(k, s):
+        o = s["impl"].get(k) or ""
+        d = dict(t.split("=", 1) for t in o.split(" ") if "=" in t)
+        if d.get("fresh") != "1":
+            return "two fresh processes returned different text than the in-process history"
+        if d.get("relocated") != "1":
+            return "a relocated copy of the sources gave different text"
+        ops = s["cases"][k].split(" ")[0].split(",")
+        res = d.get("calls", "").split(",")
+        seen = {}
+        for op, r in zip(ops, res):
+            if op in seen and seen[op] != r:
+                return "call %s returned different results within one history" % op
+            seen[op] = r
+        return None
+
+    def describe(k, s):
+        return "ops=%s over %d programs" % (s["cases"][k].split(" ")[0], s["cases"][k].count(";") + 1)
+
+    compare(ctx, s, "histories of Transpile calls on one transpiler object (md5 of every returned script)", lambda k, s: {}, describe,
+            lambda k, s: True, oracle=oracle)
+    for k in list(s["cases"])[:3]:
+        ctx.samples.append({"history": describe(k, s), "observed": s["impl"].get(k, "")[:200]})
+
+
 PROPS = {
+    "C14": {
+        "run": run_c14,
+        "rule": "histories of 5-10 Transpile calls over 2-4 programs (suite programs, some invalid, and generated import graphs) and both targets on ONE "
+                "transpiler object; each history repeated in two fresh processes (new map seeds) and from a second scratch directory; results compared "
+                "call by call with the pure model; every history is distinct and non-trivial",
+        "assumptions": ["process-level nondeterminism (map iteration seeds) is sampled by fresh processes, not modelled"],
+        "trusted": ["coq/Back/Pipeline.v: the transpiler object carries only the converter of the current call"],
+    },
+    "C09": {
+        "run": run_c09,
+        "rule": "acyclic import graphs of 2-6 small modules (chains, diamonds, the same file under two aliases, std + local, a sub-directory), each module "
+                "with public/private functions and globals, module state, optional top-level code; expected stdout follows from the meaning of modules "
+                "(each initialised once, aliases share state); the emitted Bash script is executed; non-trivial = accepted programs",
+        "assumptions": ["expected output is computed by the generator from the module semantics (harness/importsstream.go)"],
+        "trusted": ["coq/Front/FrontModel.v import handling mirrors evaluateImports/cleanProgram (byte-exact script correspondence)"],
+    },
+    "C13": {
+        "run": run_c13,
+        "rule": "token-level edits (delete/duplicate/swap/replace/insert, 1-2 edits) and truncations of the suite's programs, random token/byte soup, "
+                "missing main file, import graphs over up to 4 files with cycles, self imports, missing files, repeated and missing aliases, std; "
+                "plus every program of the pinned suite; each case through the parser and both converters under recover() and a 10 s watchdog; "
+                "non-trivial = every case (all are adversarial or real programs); distinct by case hash",
+        "assumptions": ["termination of the Go code is observed (watchdog), not proved; the model's fuel is checked never to run out on the same inputs"],
+        "trusted": ["coq/Front/FrontModel.v, coq/Back/*.v mirror parser.go, transpiler.go and both converters (byte-exact correspondence on every case)"],
+    },
+    "C12": {
+        "run": run_c12,
+        "rule": "groups of 8 layouts of one program (suite programs, 20% of them made invalid by one token edit, plus import/switch-heavy samples): LF/CRLF, "
+                "indentation, trailing blanks, blank/comment-only/block-comment lines at line breaks, blanks or block comments around punctuation, final newline, "
+                "leading lines; all variants of a group must give the same verdict and byte-identical Bash and Batch scripts; non-trivial = accepted variants",
+        "assumptions": ["re-layouts never glue or split tokens (the mutator only touches separators next to punctuation and existing line breaks)"],
+        "trusted": ["the newline normalisation at the start of parser.parse is mirrored by Front/Squeeze.v"],
+    },
     "C19": {
         "run": run_c19,
         "rule": "argument vectors over -i/-o/-t (short and long forms, shuffled pair order, repeated targets, dangling option, unknown option/target, "
